@@ -360,7 +360,27 @@ def main(casedir):
     log = io.StringIO()
     real_out, real_err = sys.stdout, sys.stderr
     sys.stdout = sys.stderr = log
-    warnings.simplefilter("ignore")
+    # hypnotoad reports some conditions (e.g. a FineContour whose iteration did not converge) only as
+    # warnings and carries on: keep which ones occurred, for the oracles
+    seen = {}
+
+    def _record(message, category, filename, lineno, file=None, line=None):
+        import re
+
+        key = "%s: %s" % (category.__name__, re.sub(r"[-+]?\d[\d.eE+-]*", "#", str(message))[:100])
+        seen[key] = seen.get(key, 0) + 1
+        m = re.search(r"FineContour: maximum iterations .* exceeded with ds_error ([-+0-9.eE]+|nan|inf)", str(message))
+        if m:
+            try:
+                v = float(m.group(1))
+            except ValueError:
+                v = float("inf")
+            if not v <= status.get("finecontour_max_ds_error", 0.0):
+                status["finecontour_max_ds_error"] = v if v == v else 1e300
+
+    warnings.simplefilter("always")
+    warnings.showwarning = _record
+    status["warnings"] = seen
     eq = mesh = None
     try:
         try:
@@ -423,10 +443,19 @@ def main(casedir):
                     current = dict(options)
                     for k, step in enumerate(desc["history"]):
                         before = ends()
+                        if step.get("reset"):
+                            # back to the defaults of every nonorthogonal_* setting
+                            current = {k: v for k, v in current.items() if not k.startswith("nonorthogonal_")}
                         current.update(step["set"])
                         if step.get("geometry_before"):
                             mesh.geometry()
-                        mesh.redistributePoints(dict(current))
+                        if step.get("style") == "minimal":
+                            # a script handing over only the non-orthogonal settings it wants
+                            # (redistributePoints replaces the whole set: absent = default)
+                            mesh.redistributePoints({k: v for k, v in current.items() if k.startswith("nonorthogonal_")})
+                        else:
+                            # the GUI hands over its complete option dictionary
+                            mesh.redistributePoints(dict(current))
                         mesh.calculateRZ()
                         after = ends()
                         worst = 0.0
